@@ -251,7 +251,7 @@ type c11Case struct {
 func c11Gen(idx int) c11Case {
 	rng := vfNewRng(vfCaseSeed(vfSeed(), "C11", idx))
 	c := c11Case{Index: idx, Backend: []string{"bolt-trimmed", "bolt-untrimmed", "memdb"}[idx%3], Chained: rng.Bool(),
-		Schedule: []string{"quiet", "append-during-scan", "append-at-handover", "append-both", "two-streams", "append-during-scan", "append-at-handover", "replace-same-addr", "stall-then-resume-live"}[(idx/3)%9]}
+		Schedule: []string{"quiet", "append-during-scan", "append-at-handover", "append-both", "two-streams", "append-during-scan", "append-at-handover", "replace-same-addr", "stall-then-resume-live", "start-in-gap"}[(idx/3)%10]}
 	switch c.Backend {
 	case "memdb":
 		c.MemCap = []int{100, 100, 2000}[rng.Intn(3)]
@@ -520,6 +520,61 @@ func c11Run(run *vfRun, c c11Case) {
 	gateAt := 0
 	if c.Schedule == "append-during-scan" || c.Schedule == "append-both" {
 		gateAt = c.GateAt
+	}
+	if c.Schedule == "start-in-gap" {
+		// a store with a hole (an interrupted deletion leaves one) and a stream asked to start inside it: the stream owes
+		// every stored round from the first one after the hole, in order, then the live ones. (The in-memory ring seeks
+		// exact rounds only and the trimmed chained store cannot rebuild the first beacon after a hole: not judged.)
+		if c.Backend == "memdb" || (c.Backend == "bolt-trimmed" && c.Chained) || c.Prefill < 30 {
+			run.Eval("")
+			return
+		}
+		g2 := c.Prefill - uint64(5+c.Index%7)
+		g1 := g2 - uint64(2+c.Index%5)
+		for r := g1; r <= g2; r++ {
+			_ = st.base.Del(context.Background(), r)
+		}
+		from := g1 + uint64(c.Index%int(g2-g1+1))
+		cons := vfsNewConsumer(from, 0)
+		defer cons.cancel()
+		cons.start(st)
+		if !waitRegistered(st, cons) {
+			select {
+			case err := <-cons.done:
+				run.Count("streams_from_inside_a_hole_refused", 1)
+				run.Note(fmt.Sprintf("stream from inside a hole ended: %v", err))
+				run.Eval("")
+			default:
+				run.Inconclusive("live callback never registered")
+			}
+			return
+		}
+		if err, done := waitErr(appendN(st, c.AfterN, cons), 5*time.Second); !done || err != nil {
+			run.Inconclusive(fmt.Sprintf("live append did not return: %v", err))
+			return
+		}
+		cons.awaitHead(st)
+		cons.quiesce()
+		got := cons.rounds()
+		info := map[string]any{"case_index": c.Index, "case": c, "hole": []uint64{g1, g2}, "from": from, "delivered": tail(got, 16), "head": st.head}
+		want := g2 + 1
+		okSeq := len(got) > 0 && got[0] == want && got[len(got)-1] == st.head
+		for i := 1; i < len(got) && okSeq; i++ {
+			if got[i] != got[i-1]+1 {
+				okSeq = false
+			}
+		}
+		if !okSeq {
+			first := uint64(0)
+			if len(got) > 0 {
+				first = got[0]
+			}
+			run.Violation(fmt.Sprintf("C11/stored-rounds-after-a-hole-not-delivered/%s", c.Backend),
+				fmt.Sprintf("rounds %d..%d are missing from the store, a stream from %d must deliver %d..%d (head); it delivered %d round(s) starting at %d: …%v", g1, g2, from, want, st.head, len(got), first, tail(got, 8)), info)
+		}
+		run.Count("streams_started_inside_a_hole", 1)
+		run.Eval(fmt.Sprintf("%s/%v/%d/%d-%d/%d", c.Backend, c.Chained, c.Prefill, g1, g2, from))
+		return
 	}
 	if c.Schedule == "stall-then-resume-live" {
 		// a consumer that stops reading at its first LIVE beacon while a burst larger than the callback queue is
